@@ -19,6 +19,14 @@ def num_close(a, b, rel=1e-7, abs_=1e-14):
         fa, fb = float(a), float(b)
     except (TypeError, ValueError):
         return False
+    except OverflowError:
+        # beyond float range (huge exact rationals): compare the exact values relatively
+        from fractions import Fraction
+        try:
+            qa, qb = Fraction(a), Fraction(b)
+            return abs(qa - qb) <= Fraction(rel).limit_denominator(10**12) * max(abs(qa), abs(qb))
+        except (TypeError, ValueError, OverflowError):
+            return False
     if fa != fa or fb != fb:
         return False
     if fa in (float("inf"), float("-inf")) or fb in (float("inf"), float("-inf")):
